@@ -507,6 +507,10 @@ class Interp:
             if fv is not None:
                 return fv if self._is_static(fv) else BoundMethod(o, fv)
             raise RaiseSignal('AttributeError', attr)
+        if isinstance(o, AbstractObj):
+            if attr not in o.members: raise RaiseSignal('AttributeError', attr)
+            m = o.members[attr]
+            return Callable(m, name=o.tag + '.' + attr) if callable(m) and not isinstance(m, sp.Basic) else m
         if isinstance(o, SuperRef):
             fv = R.find_method(o.obj.cls_key, attr, after=o.after)
             if fv is None:
